@@ -985,6 +985,18 @@ func ruleReloadIsUnconditional(c *eng.Ctx) {
 		}
 		return false
 	}}
+	// and whatever the reload answers, the handler stays: the next SIGHUP (the repaired file) and the interrupt are still served
+	qe := &eng.PathQuery{Fn: fn, FromEdges: hup, CutInstr: func(x ssa.Instruction) bool {
+		switch y := x.(type) {
+		case *ssa.UnOp:
+			return y.Op == token.ARROW
+		case *ssa.Select:
+			return true
+		}
+		return false
+	}, Target: isReturn}
+	we := qe.Find()
+	c.Check(we == nil, "a SIGHUP never ends the signal handler", c.P.Pos(fn.Pos()), "from the SIGHUP case every path leads back to the receive", "the signal handler goroutine can return while handling a SIGHUP ("+we.String()+"): after one failed reload no later SIGHUP reloads the policy — revocations written to the policy file never take effect — and the interrupt is no longer handled either")
 	w := q.Find()
 	c.Check(w == nil, "every SIGHUP reloads the policy", c.P.Pos(fn.Pos()), "from the SIGHUP case every path to the next signal passes LoadPolicy", "handleSignals can skip the reload for a SIGHUP ("+w.String()+"): a state of the policy file — an emptied one is how the last permissions are revoked — leaves everybody who was authorised authorised")
 }
